@@ -124,7 +124,10 @@ func main() {
 			out = syncRe.ReplaceAll(out, []byte(`${1}sync "github.com/uhn/ggql/pkg/vsync"${2}`))
 			nsync++
 		}
-		hdr := fmt.Sprintf("//go:build go1.18\n\n//line %s:1\n", path)
+		// No //line directive: with go1.23 a position behind one has no entry in the type checker's FileVersions, and the
+		// compiler then gives every loop in the file per-iteration variables (the go1.22 semantics) - the instrumented
+		// build would not be the program pkg/ggql's go.mod (go 1.16) describes. Sites are reported from sites.json.
+		hdr := "//go:build go1.18\n\n"
 		op := filepath.Join(outdir, filepath.Base(path))
 		if err := os.WriteFile(op, append([]byte(hdr), out...), 0o644); err != nil {
 			die("%v", err)
